@@ -1,11 +1,12 @@
 CONSTANTS
   Conns = {"consensus", "mempool", "query", "snapshot"}
-  MaxCalls = 4
+  MaxCalls = 2
   Kinds = {"Async", "Sync", "FlushSync", "EchoSync"}
   Gates = TRUE
   Prio = FALSE
   Weak_LocalClientPerConnMutex = TRUE
   Weak_SyncWithoutMutex = FALSE
+  Weak_CallbackOutsideMutex = FALSE
 INIT Init
 NEXT Next
 INVARIANTS LocalClientSerialises LocalCallbacks
